@@ -155,6 +155,54 @@ fn related<T: Clone>(rng: &mut Rng, alpha: &[T], max_len: u64) -> (Vec<T>, Vec<T
     }
 }
 
+/// a random pair of LONG related words (10..=40 letters) sharing a long common prefix: they differ
+/// only at one late position (index >= 8, often the very last), or one is a proper prefix of the
+/// other (cut at >= 8), or one has a few more letters, or they are equal
+fn related_long<T: Clone>(rng: &mut Rng, alpha: &[T], pick: &mut dyn FnMut(&mut Rng, &[T]) -> T) -> (Vec<T>, Vec<T>) {
+    let n = 10 + rng.below(31) as usize;
+    let a: Vec<T> = (0..n).map(|_| pick(rng, alpha)).collect();
+    let mut bv = a.clone();
+    let late = |rng: &mut Rng| match rng.below(3) {
+        0 => n - 1,
+        1 => n - 1 - rng.below(3) as usize,
+        _ => 8 + rng.below(n as u64 - 8) as usize,
+    };
+    match rng.below(8) {
+        0 => {}
+        1 | 2 | 3 => {
+            let k = late(rng);
+            bv[k] = pick(rng, alpha);
+            // and possibly a different length behind the change
+            match rng.below(4) {
+                0 => bv.truncate(k + 1),
+                1 => bv.push(pick(rng, alpha)),
+                _ => {}
+            }
+        }
+        4 | 5 => bv.truncate(late(rng)),
+        6 => {
+            for _ in 0..=rng.below(3) {
+                bv.push(pick(rng, alpha));
+            }
+        }
+        _ => {
+            // two late changes
+            let k = late(rng);
+            bv[k] = pick(rng, alpha);
+            bv[n - 1] = pick(rng, alpha);
+        }
+    }
+    if rng.below(2) == 0 {
+        (a, bv)
+    } else {
+        (bv, a)
+    }
+}
+
+fn pick_uniform<T: Clone>(rng: &mut Rng, alpha: &[T]) -> T {
+    alpha[rng.below(alpha.len() as u64) as usize].clone()
+}
+
 fn with_none<V: Clone>(vals: &[V]) -> Vec<Option<V>> {
     let mut v = vec![None];
     v.extend(vals.iter().cloned().map(Some));
@@ -250,6 +298,18 @@ macro_rules! scalar_family {
             prs.push(related($rng, alpha, 12));
         }
         some_pairs(out, sname, &prs, &sshow, &sops);
+        // --- seeded random stream of LONG slices (10..=40) that differ late / are prefixes of each other
+        let n = if $tier == "thorough" { 400 } else { 40 };
+        let mut prs: Vec<(Vec<$T>, Vec<$T>)> = Vec::new();
+        for i in 0..n {
+            let alpha = &alphas[i % alphas.len()];
+            prs.push(related_long($rng, alpha, &mut pick_uniform));
+        }
+        some_pairs(out, sname, &prs, &sshow, &sops);
+        some_pairs(out, sname, &prs[..n / 4], &sshow, &sops2);
+        let oprs: Vec<(Option<Vec<$T>>, Option<Vec<$T>>)> =
+            prs[n / 4..n / 2].iter().map(|(a, b)| (Some(a.clone()), Some(b.clone()))).collect();
+        some_pairs(out, sname, &oprs, &osshow, &osops);
     }};
     // assertc_*! on slices needs const_panic's "non_basic" feature (PanicFmt for [T]), which konst does not enable
     (@assert $out:ident, $sname:ident, $sshow:ident, $alphas:ident, $T:ty, no) => {{}};
@@ -468,6 +528,18 @@ fn str_family(out: &mut Out, tier: &str, rng: &mut Rng) {
         })
         .collect();
     some_pairs(out, "str", &prs, &show, &ops[..4]);
+    // LONG strings (10..=40 chars) with many multi-byte characters, differing late
+    let n = if tier == "thorough" { 3000 } else { 300 };
+    let mut pick_any = |rng: &mut Rng, alpha: &[char]| if rng.below(3) == 0 { rand_char(rng) } else { pick_uniform(rng, alpha) };
+    let prs: Vec<(String, String)> = (0..n)
+        .map(|i| {
+            let (a, bv) = if i % 2 == 0 { related_long(rng, &alpha, &mut pick_any) } else { related_long(rng, &alpha[..4], &mut pick_uniform) };
+            (a.into_iter().collect(), bv.into_iter().collect())
+        })
+        .collect();
+    some_pairs(out, "str", &prs, &show, &ops[..4]);
+    let oprs: Vec<(Option<String>, Option<String>)> = prs[..n / 10].iter().map(|(a, b)| (Some(a.clone()), Some(b.clone()))).collect();
+    some_pairs(out, "str", &oprs, &oshow, &oops);
 }
 
 fn slice_str_family(out: &mut Out, tier: &str, rng: &mut Rng) {
@@ -501,6 +573,22 @@ fn slice_str_family(out: &mut Out, tier: &str, rng: &mut Rng) {
     let n = if tier == "thorough" { 20000 } else { 2000 };
     let prs: Vec<(V, V)> = (0..n).map(|_| related(rng, &ralpha, 6)).collect();
     some_pairs(out, "slice_str", &prs, &show, &ops[..6]);
+    // LONG slices (10..=40 strings) with a long shared prefix; the elements themselves are long strings
+    // sharing long prefixes (the late difference sits inside an element, or in the lengths)
+    let n = if tier == "thorough" { 1500 } else { 150 };
+    let calpha: Vec<char> = vec!['a', 'b', 'ñ', '€', '\u{10FFFF}'];
+    let mut long_elems: Vec<&'static str> = Vec::new();
+    for _ in 0..4 {
+        let (a, bv) = related_long(rng, &calpha, &mut pick_uniform);
+        long_elems.push(Box::leak(a.into_iter().collect::<String>().into_boxed_str()));
+        long_elems.push(Box::leak(bv.into_iter().collect::<String>().into_boxed_str()));
+    }
+    let prs: Vec<(V, V)> = (0..n)
+        .map(|i| if i % 2 == 0 { related_long(rng, &ralpha, &mut pick_uniform) } else { related_long(rng, &long_elems, &mut pick_uniform) })
+        .collect();
+    some_pairs(out, "slice_str", &prs, &show, &ops);
+    let oprs: Vec<(Option<V>, Option<V>)> = prs[..n / 10].iter().map(|(a, b)| (Some(a.clone()), Some(b.clone()))).collect();
+    some_pairs(out, "slice_str", &oprs, &oshow, &oops);
 }
 
 fn slice_bytes_family(out: &mut Out, tier: &str, rng: &mut Rng) {
@@ -530,6 +618,21 @@ fn slice_bytes_family(out: &mut Out, tier: &str, rng: &mut Rng) {
     let n = if tier == "thorough" { 20000 } else { 2000 };
     let prs: Vec<(V, V)> = (0..n).map(|_| related(rng, &ralpha, 6)).collect();
     some_pairs(out, "slice_bytes", &prs, &show, &ops);
+    // LONG slices (10..=40 byte strings) with a long shared prefix; long elements sharing long prefixes
+    let n = if tier == "thorough" { 1500 } else { 150 };
+    let balpha: Vec<u8> = vec![0, 1, 2, 0x7f, 0x80, 0xff];
+    let mut long_elems: Vec<&'static [u8]> = Vec::new();
+    for _ in 0..4 {
+        let (a, bv) = related_long(rng, &balpha, &mut pick_uniform);
+        long_elems.push(Box::leak(a.into_boxed_slice()));
+        long_elems.push(Box::leak(bv.into_boxed_slice()));
+    }
+    let prs: Vec<(V, V)> = (0..n)
+        .map(|i| if i % 2 == 0 { related_long(rng, &ralpha, &mut pick_uniform) } else { related_long(rng, &long_elems, &mut pick_uniform) })
+        .collect();
+    some_pairs(out, "slice_bytes", &prs, &show, &ops);
+    let oprs: Vec<(Option<V>, Option<V>)> = prs[..n / 10].iter().map(|(a, b)| (Some(a.clone()), Some(b.clone()))).collect();
+    some_pairs(out, "slice_bytes", &oprs, &oshow, &oops);
 }
 
 fn ordering_family(out: &mut Out) {
